@@ -94,6 +94,15 @@ def _lm_syms(seqs):
             "obs": z3.Function(f"observed[{sid}]", INT, STR)}             # the residues observed at position i, sorted, as one string
 
 
+def _pat(term, bound):
+    """a trigger only if z3 accepts the term as one (it must mention every bound variable and no interpreted arithmetic on top)"""
+    try:
+        z3.ForAll(bound, z3.BoolVal(True) == (term == term), patterns=[term])
+        return {"patterns": [term]}
+    except z3.Z3Exception:
+        return {}
+
+
 def _lm_axioms(interp, seqs, sy):
     ctx = interp.ctx
     key = ("ax", "lm", sy["sid"], id(seqs.content))
@@ -117,7 +126,7 @@ def _lm_axioms(interp, seqs, sy):
     ctx.assume_global(z3.ForAll([i, k], z3.Implies(z3.And(0 <= k, k < n, 0 <= i, i < z3.Length(at(k)),
                                                           z3.SubString(at(k), i, 1) != z3.StringVal("-"), z3.SubString(at(k), i, 1) != z3.StringVal(".")),
                                                    z3.And(cnt(i, z3.SubString(at(k), i, 1)) >= 1, z3.Contains(obs(i), z3.SubString(at(k), i, 1)))),
-                                patterns=[z3.SubString(at(k), i, 1)]), lab)
+                                **_pat(z3.SubString(at(k), i, 1), [i, k])), lab)
 
 
 @extern("logomaker.alignment_to_matrix")
@@ -379,3 +388,69 @@ def _drawn_kw(interp, args, kwargs, node):
     if len(calls) != 1 or key not in calls[0][3]:
         return VObj("object", interp.ctx.fresh("no_such_single_call", OBJ))
     return calls[0][3][key]
+
+
+# ---- seqlogos: the count matrix handed to logomaker.Logo and returned --------------------------------------------------------
+def _cm_attr(interp, base, attr, node):
+    if isinstance(base, VObj) and base.tag == "CountMatrix" and attr == "shape":
+        ncols = opaque(interp, "count_matrix_columns", [VObj("object", z3.Const(f"seq:{base.sy['sid']}", OBJ))], None, "int", rsort=z3.IntSort())
+        return VTuple([VInt(base.L), VInt(ncols)])
+    if isinstance(base, VObj) and base.tag == "Axes" and attr == "spines":
+        return interp.born(opaque(interp, "attr.spines", [base], None, "object"))
+    return None
+
+
+E.HOOKS["getattr"].insert(0, _cm_attr)
+
+
+@extern("matplotlib.pyplot.subplots")
+def _subplots(interp, args, kwargs, node):
+    kwargs.get("figsize")
+    if args or set(kwargs.keys()) - {"figsize"}:
+        raise Unsupported("plt.subplots arguments")
+    fig = VObj("Figure", z3.Const("new_figure", OBJ))
+    ax = VObj("Axes", z3.Const("new_axes", OBJ))
+    return VTuple([fig, ax])
+
+
+@extern("logomaker.Logo")
+def _lm_logo(interp, args, kwargs, node):
+    if not interp.spec_mode:
+        _effects(interp).append((kwargs.get("ax"), "Logo", list(args), dict(kwargs.items())))
+    else:
+        kwargs.items()
+    return VObj("Logo", z3.Const("logo", OBJ))
+
+
+for _m in ("set_xticks", "set_yticks"):
+    E.METHODS[("Axes", _m)] = (lambda m: (lambda interp, sv, args, kwargs, node: (_effects(interp).append((sv, m, list(args), dict(kwargs.items())))
+                                                                                 if not interp.spec_mode else None, NONE)[1]))(_m)
+
+
+@method("object", "set_visible")
+def _set_visible(interp, sv, args, kwargs, node):
+    return NONE
+
+
+@S.spec("is_count_matrix_of")
+def _is_cm_of(interp, args, kwargs, node):
+    """m is logomaker's count matrix of exactly these sequences (cell [i, c] = number of sequences showing residue c at position i)"""
+    m, seqs = args
+    return VBool(isinstance(m, VObj) and m.tag == "CountMatrix" and m.seqs is seqs)
+
+
+@S.spec("logo_drawn_on")
+def _logo_drawn_on(interp, args, kwargs, node):
+    """the single logomaker.Logo call of the function drew matrix m on axes ax"""
+    m, ax = args
+    calls = [e for e in _effects(interp) if e[1] == "Logo"]
+    if len(calls) != 1:
+        return VBool(False)
+    e = calls[0]
+    same_ax = e[0] is ax or (isinstance(e[0], VObj) and isinstance(ax, VObj) and e[0].term is not None and ax.term is not None and z3.eq(e[0].term, ax.term))
+    return VBool(bool(e[2]) and e[2][0] is m and same_ax)
+
+
+@S.spec("new_axes")
+def _new_axes(interp, args, kwargs, node):
+    return VObj("Axes", z3.Const("new_axes", OBJ))
